@@ -33,12 +33,14 @@ def docs():
                 children=[MSEC("abs1", "*", "impls")])
     # a component type that extends a type of the schema under another key type
     d5 = SCHEMA(types=list(packages.CONTEXT), children=[MSEC("abs1", "*", "impls"), MSEC("wbase", "+", "bases")])
-    return [d1, d2, d3, d4, d5]
+    return [d1, d2, d3, d4, d5, copy.deepcopy(d1)]
 
 
 LINES = {
     0: ["%import zcvpkg_a", "%import zcvpkg_b", "%import ZCVPKG_A", "%import zcvpkg_nocomp", "<pa1 n1/>", "<pa2 n2/>",
         "<pb1/>", "<t1/>", "<t3 x/>", "<abs1 x/>", "<u1/>", "%define pk zcvpkg_a", "%import $pk"],
+    # (schema 0 again, other lines) the same type name from two packages, an implementer in only one of them
+    5: ["%import zcvpkg_x", "%import zcvpkg_y", "<dupt n1/>", "<dupt/>", "%import zcvpkg_a", "<pa1 n2/>"],
     1: ["%import zcvpkg_a", "%import zcvpkg_c", "%import zcvmod_plain", "%import zcvpkg_missing", "<pa1 n1/>",
         "<pc1 n2/>", "<pa1 fixed/>", "<t2 n3/>", "<pa2/>", "%import zcvpkg_a."],
     2: ["%import zcvpkg_a", "%import zcvpkg_b", "<box>", "</box>", "<pa1 n1/>", "<pb1/>", "<pa1/>", "%import zcvpkg_c"],
@@ -61,6 +63,11 @@ def proj_recs(sc):
 
 
 def compare(ws, sch, rec, item, emit):
+    if item["sid"] == 5:
+        # the same type name comes from two packages here: a schema object that has served other loads carries
+        # their implementer names (finding D9), so single loads are judged on a fresh schema object - what a
+        # used one does is the business of the sessions below
+        sch = loadgen.real_schema(scenario._CTX["sc"].docs[5], fresh=True)
     got, _ = scenario.run_real(ws, sch, rec, item)
     want = emit["o"]
     why = None
@@ -107,7 +114,8 @@ def record_session(ws, sc, sid, idxs, mutate_after=(), one_loader=False):
 
 def describe(sc):
     def f(s, clause, v):
-        cls = {"clause": clause, "lenient": (v or {}).get("lenient")}
+        cls = {"clause": clause, "lenient": (v or {}).get("lenient"),
+               "outcome_follows_leak": bool((v or {}).get("leakused"))}
         return {"schema_xml": schemas.to_xml(sc.docs[s["sid"] - 1]), "one_loader_object": s.get("_one_loader", False),
                 "loads": [sc.items[i]["files"] for i in s["_items"]],
                 "implementers_before": s["digest0"]["impl"],
@@ -164,6 +172,18 @@ def run(chk):
                 sid = rng.randrange(len(dd))
                 idxs = [rng.choice(by_sid[sid]) for _ in range(rng.randint(2, 4))]
                 sessions.append(record_session(ws, sc, sid, idxs, one_loader=rng.random() < 0.5))
+            # the same type name from two packages: import the implementing one first, then the other one
+            # and use the type (finding D9b: the used schema object still lists the name as an implementer)
+            def find(lines):
+                return next(i for i, it in enumerate(sc.items) if it["sid"] == 5 and it["files"]["d/main.conf"] == lines)
+            first = [find(["%import zcvpkg_x"]), find(["%import zcvpkg_x", "<dupt n1/>"])]
+            then = [find(["%import zcvpkg_y", "<dupt n1/>"]), find(["%import zcvpkg_y", "<dupt/>"]),
+                    find(["%import zcvpkg_y"]), find(["<dupt n1/>"])]
+            for a in first:
+                for b in then:
+                    for one in (False, True):
+                        sessions.append(record_session(ws, sc, 5, [a, b], one_loader=one))
+                        sessions.append(record_session(ws, sc, 5, [b, a, b], one_loader=one))
             # sessions through one ExtendedConfigLoader that carries an override of a top-level key
             for _ in range(150 if quick else 1200):
                 idxs = [rng.choice(with_opts) for _ in range(rng.randint(2, 4))]
